@@ -18,6 +18,7 @@ STEP_THEOREMS = ['FlexVerif.C01Step.' + t for t in ('tab_eval', 'comp_code', 'co
                                                   'prevState_shape', 'nulTrans_spec', 'cellStep_eq_stepByte', 'forBody_run', 'for_loop',
                                                   'prevState_spec')]
 THEOREMS += STEP_THEOREMS
+THEOREMS += ['FlexVerif.C01StepBuf.walk_prevFrom', 'FlexVerif.C01StepBuf.nulTrans_tableDFA']
 THEOREMS += ['FlexVerif.C01StepC99.' + t for t in ('prevState_same', 'nulTrans_same', 'prevState_spec_c99', 'nulTrans_spec_c99')]
 
 
